@@ -59,12 +59,35 @@ theorem canon_set_idem (defs : Defs) (cfg : Cfg) (fuel : Nat) (t : CTy) (xs : Do
 
 /-- primitives, enums and aliases: canonical forms are fixed points (the enum clause includes the object spelling
 `{"V": null}` that the code accepts: it canonicalises to the string, which is a fixed point) -/
+theorem primCanon_of_ok (p : Prim) (d : Doc) (h : primOk p d = true) : primCanon p d = some d := by
+  unfold primCanon
+  split
+  · simp [primOk] at h
+  · simp [h]
+
+theorem primCanon_cases (p : Prim) (d d' : Doc) (h : primCanon p d = some d') :
+    (primOk p d = true ∧ d' = d) ∨
+    (∃ n, p = .double ∧ d = .int n ∧ safeInt n = true ∧ d' = .dbl (.fin (intBits n))) := by
+  unfold primCanon at h
+  split at h
+  · rename_i n
+    by_cases hs : safeInt n = true
+    · rw [if_pos hs] at h; cases h; exact Or.inr ⟨n, rfl, rfl, hs, rfl⟩
+    · rw [if_neg hs] at h; cases h
+  · by_cases hp : primOk p d = true
+    · rw [if_pos hp] at h; cases h; exact Or.inl ⟨hp, rfl⟩
+    · rw [if_neg hp] at h; cases h
+
+/-- the canonical form of a primitive is in its specified encoding -/
+theorem primCanon_ok (p : Prim) (d d' : Doc) (h : primCanon p d = some d') : primOk p d' = true := by
+  rcases primCanon_cases p d d' h with ⟨hp, rfl⟩ | ⟨n, rfl, rfl, -, rfl⟩
+  · exact hp
+  · rfl
+
 theorem canon_prim_idem (defs : Defs) (cfg : Cfg) (fuel : Nat) (p : Prim) (d d' : Doc)
     (h : canon defs cfg (fuel + 1) (.prim p) d = some d') : canon defs cfg (fuel + 1) (.prim p) d' = some d' := by
   simp only [canon] at h ⊢
-  by_cases hp : primOk p d = true
-  · simp only [hp, if_true, Option.some.injEq] at h; subst h; simp [hp]
-  · simp [hp] at h
+  exact primCanon_of_ok p d' (primCanon_ok p d d' h)
 
 theorem canon_enum_idem (defs : Defs) (cfg : Cfg) (fuel n : Nat) (values : List Bytes) (d d' : Doc)
     (hd : defs[n]? = some (.enum values))
@@ -179,10 +202,8 @@ theorem canon_nonoptional_nonnull (defs : Defs) (cfg : Cfg) : ∀ (fuel : Nat) (
   | 0, _, _, _, _, h => by simp [canon] at h
   | fuel + 1, .prim p, d, d', _, h => by
     simp only [canon] at h
-    by_cases hp : primOk p d = true
-    · rw [if_pos hp] at h; cases h
-      intro hn; subst hn; cases p <;> simp [primOk] at hp
-    · rw [if_neg hp] at h; cases h
+    have hp := primCanon_ok p d d' h
+    intro hn; subst hn; cases p <;> simp [primOk] at hp
   | fuel + 1, .optional t, _, _, hs, _ => by exact absurd rfl (hs t)
   | fuel + 1, .list t, d, d', _, h => by
     intro hn; subst hn
